@@ -1,7 +1,7 @@
 """C05 — allocation conservation."""
 from props import histprop
 PID = "C05"
-MIX = [("full", {}), ("extfull", {}), ("file", {}), ("extbound", {}), ("names", {}), ("dirc", {}), ("names", {"dostype": 4, "latin": True}), ("dircfull", {}), ("pagecross", {}), ("bigrm", {})]
+MIX = [("full", {}), ("extfull", {}), ("file", {}), ("extbound", {}), ("names", {}), ("dirc", {}), ("names", {"dostype": 4, "latin": True}), ("dircfull", {}), ("pagecross", {}), ("bigrm", {}), ("dircspill", {})]
 RULE = ('every quiescent point of seeded histories over files of every size class: allocated set = reachable + reserved (no leak), reported free count = model count (exact on non-DIRCACHE flavours), refill after delete')
 def run(res):
     histprop.run(res, PID, MIX, {"C05"}, RULE, nquick=60, nthorough=1500)
